@@ -197,7 +197,7 @@ func genC37Conc(t *rapid.T) c37Case {
 func genC37(t *rapid.T) c37Case {
 	// (rapid's integer generators are biased towards small values; booleans are fair)
 	conc := rapid.Bool().Draw(t, "concurrent")
-	if c37CapEnabled && rapid.Bool().Draw(t, "m1") && rapid.Bool().Draw(t, "m2") && rapid.Bool().Draw(t, "m3") && rapid.Bool().Draw(t, "m4") {
+	if c37CapEnabled && fairInt(t, 32, "cap") == 0 {
 		return genC37Cap(t)
 	}
 	if conc {
@@ -341,6 +341,9 @@ func runC37Conc(ctx *ev.Ctx, c c37Case) {
 	var last int64
 	for i := range h.Ev {
 		e := &h.Ev[i]
+		if e.Res.Bad != "" {
+			ctx.Failf("under concurrent use, operation %s of goroutine %d: %s", jsonOf(all[e.GI]), e.G, e.Res.Bad)
+		}
 		if e.GI < len(c.Pre) || e.GI >= len(all)-1 || e.Call >= e.Ret {
 			ctx.Failf("harness: malformed history event %s", jsonOf(e))
 		}
@@ -466,6 +469,7 @@ func runC37(ctx *ev.Ctx, c c37Case) {
 
 func TestC37(t *testing.T) {
 	defer c37StopChild()
+	defer c37CapCleanup()
 	ev.Drive(t, "C37",
 		"cases: (seq) 1.."+fmt.Sprint(ev.Scale(40, 80))+" operations add/del/clean/get/unverified/remain/lookups on one TXPool over 1..10 transaction ids "+
 			"(same hash carried by up to 3 distinct objects), MaxTxInBlock in {0,1,2,3,5,100}, verification heights 0..8 and extremes, every result and the "+
